@@ -648,7 +648,7 @@ RUST_TYPE_RULES = []          # extended from the tables: (regex over the whites
 def rust_type(txt, selfty):
     """Rust type text (as normalised by Parser.ty) -> value type"""
     if txt is None: return "unit"
-    t = txt.replace("mut ", "").replace(" ", "")
+    t = txt.replace("mut ", "").replace(" ", "").replace("::<", "<")
     t = re.sub(r"^&+('[a-z_]+)?", "", t)
     t = re.sub(r"^mut", "", t)
     if t in ("usize",): return "usize"
@@ -1134,6 +1134,24 @@ class Translator:
             avals.append(t)
         ent2 = dict(ent)
         if ent.get("ret") == "self": ent2["ret"] = self.selfty
+        if ent.get("out"):
+            # a call with `&mut` arguments: the model function returns their new values (and the return value); an argument
+            # `&mut v[i]` is read before the call (above) and written back after it
+            names, later, retname = [], [], None
+            for o in ent["out"]:
+                if o == "ret": retname = self.fresh("r"); names.append(retname); continue
+                pl = strip(args[int(o[3:])])
+                if pl[0] == "var":
+                    v = env.lookup(pl[1])
+                    if v is None: self.bad("unknown variable `%s`" % pl[1])
+                    names.append(v.g); self.ctx.note(v)
+                elif pl[0] in ("field", "index"):
+                    nv = self.fresh("n"); names.append(nv); later.append((pl, nv, self.place_type(pl, env)))
+                else: self.bad("`&mut` argument of `%s` that is not a place" % path)
+            t = ent["g"].format(*avals)
+            B.append(("bind" if ent.get("fallible") else "let", names_pat(names), g_raw(t if ent.get("fallible") else "(" + t + ")")))
+            for pl, nv, pty in later: self.assign_place(pl, nv, pty, env, B)
+            return (retname, ent["ret"]) if retname else ("tt", "unit")
         return self.apply_fn(ent2, avals, B)
 
     def mem_swap(self, args, env, B):
@@ -1157,6 +1175,7 @@ class Translator:
         if p[0] == "var":
             v = env.lookup(p[1])
             if v is None: self.bad("assignment to unknown variable `%s`" % p[1])
+            if v.ty is None: v.ty = "usize" if tval == "lit" else tval       # `let mut b;` gets the type of its first assignment
             if tval == "lit": tval = v.ty
             if v.ty != tval: self.bad("assignment of a %s to `%s` : %s" % (tval, v.name, v.ty))
             if B and B[-1][0] == "bind" and B[-1][1] == ("v", val) and re.match(r"^[a-z]+[0-9]+$", val):
@@ -1234,8 +1253,11 @@ class Translator:
         if kind == "let": return self.let_stmt(s, env, rest)
         if kind == "const":
             B = []; t, ty = self.ex(s[3], env, B)
+            if B: self.bad("`const %s` whose value is not a constant expression" % s[1])
+            # a compile-time constant: no binder, its uses are replaced by its value
             env2, v = env.declare(s[1], self.gname(s[1]), "usize" if ty == "lit" else ty)
-            B.append(("let", ("v", v.g), g_raw(t))); return wrap(B, rest(env2))
+            v.g = t if re.match(r"^[0-9]+$", t) else "(" + t + ")"
+            return rest(env2)
         if kind == "assign": return self.assign_stmt(s, env, rest)
         if kind == "for": return self.for_stmt(s, env, rest)
         if kind == "while": return self.while_stmt(s, env, rest)
@@ -1307,12 +1329,18 @@ class Translator:
         if e is None:
             # `let mut x: T;` -- declared, assigned later (Rust's definite-assignment analysis guarantees that no path reads
             # it before): no Gallina binder here; the first assignment on each path binds it
-            if pat[0] != "pvar" or ty is None: self.bad("`let` without initialiser and without a type")
-            dty = rust_type(ty, self.selfty)
+            if pat[0] != "pvar": self.bad("`let` without initialiser and with a pattern")
+            dty = rust_type(ty, self.selfty) if ty is not None else None     # `let mut b;`: typed by its first assignment
             if isinstance(dty, tuple) and dty[0] == "unknown": self.bad("`let %s: %s;` of unsupported type" % (pat[1], dty[1]))
             env2, v = env.declare(pat[1], self.gname(pat[1]), dty, uninit=True)
             return rest(env2)
         if e[0] == "match": return self.let_match(s, env, rest)
+        if e[0] == "array" and pat[0] == "pvar" and pat[1] in self.spec.get("arrays", {}):
+            # a table of float literals that the model takes as a parameter (its VALUES are tied by gen/Params.v)
+            g, n = self.spec["arrays"][pat[1]]
+            if len(e[1]) != n or any(x[0] != "num" for x in e[1]): self.bad("array `%s` is not a table of %d literals" % (pat[1], n))
+            env2, v = env.declare(pat[1], self.gname(pat[1]), "vec"); v.g = g
+            return rest(env2)
         B = []
         t, tv = self.ex(e, env, B)
         if pat[0] == "pvar":
